@@ -83,6 +83,12 @@ def c12_1(c: Ctx) -> None:
 
     # the exception arm
     val_calls = [n for n in own_nodes(u.node) if isinstance(n, ast.Call) and call_name(n) in ('model_validate', 'validate_python', 'TypeAdapter')]
+    # the declared type alone decides how strict the check is: no validation-mode argument (strict=, from_attributes=, context=) is passed along
+    for vc in val_calls:
+        extra = [k.arg or '**' for k in vc.keywords] + ([U(a)[:20] for a in vc.args[1:]])
+        if extra:
+            c.fail(u, f'{call_name(vc)}(...) is called with extra arguments {extra}', 'a validation-mode argument overrides what the declared type asks for (an explicit strict=False switches a StrictInt / '
+                   'ConfigDict(strict=True) type to lax coercion): a non-conforming value is recorded as a completed result', node=vc)
     tries = {id(t): t for vc in val_calls for t in q.ancestors_of(vc) if isinstance(t, ast.Try) and q.lexically_in(vc, t, 'body')}
     if not tries:
         c.fail(u, 'validation calls are not inside a try', 'a validation error propagates into execute_handler instead of producing an error result')
